@@ -492,6 +492,33 @@ func checkSatelliteAttachment(c *Ctx, rule, fam string, sat *ssa.Function) {
 		}
 	}
 	c.Check(app, rule, fam+":satellite:appended", ctor.Pos(), "each constructed cell is appended to the result in order", "constructed satellite cells are not appended to the result")
+	// the list is complete: a successful return is reached only over the exit edge of the loop
+	// that builds the cells
+	var hb *ssa.BasicBlock
+	switch x := idx.(type) {
+	case *ssa.Phi:
+		hb = x.Block()
+	case *ssa.BinOp:
+		if phi, ok := x.X.(*ssa.Phi); ok {
+			hb = phi.Block()
+		}
+	}
+	if hb != nil && len(hb.Succs) == 2 {
+		complete, n := true, 0
+		for _, r := range returnsOf(sat) {
+			if len(r.Results) != 2 || !isNilConst(r.Results[1]) {
+				continue
+			}
+			n++
+			if !edgeDominates(hb, hb.Succs[1], r.Block()) {
+				complete = false
+				c.Fail(rule, fam+":satellite:all-cells", r.Pos(), "refuted", "the satellite reader can return successfully before its loop over the satellites has finished: cells are missing from the result")
+			}
+		}
+		if complete && n > 0 {
+			c.OK(rule, fam+":satellite:all-cells", sat.Pos(), "every successful return follows the complete loop over the satellites")
+		}
+	}
 }
 
 func traceAppend(v ssa.Value) []*ssa.Call {
@@ -617,6 +644,25 @@ func checkSignalAttachment(c *Ctx, rule, fam string, A *Aff, hl *headerLemma, si
 		return f == hl.cells && root(base) == ssa.Value(hdrP)
 	})
 	c.Check(iOK && jOK, rule, fam+":signal:loop-nest", ctor.Pos(), "i ranges over header.Cells (satellites), j over header.Cells[i] (signals)", "the attachment loops do not range over the cell mask rows and columns")
+	// the rows are complete: a successful return is reached only over the exit edge of the loop
+	// over the satellites (an early success return from inside the nest drops the remaining rows)
+	if iOK {
+		hb := iIdx.(*ssa.BinOp).X.(*ssa.Phi).Block()
+		complete, n := true, 0
+		for _, r := range returnsOf(sig) {
+			if len(r.Results) != 2 || !isNilConst(r.Results[1]) {
+				continue
+			}
+			n++
+			if len(hb.Succs) != 2 || !edgeDominates(hb, hb.Succs[1], r.Block()) {
+				complete = false
+				c.Fail(rule, fam+":signal:all-rows", r.Pos(), "refuted", "the signal reader can return successfully before the loop over the satellites has finished: the rows of the remaining satellites are missing from the result")
+			}
+		}
+		if complete && n > 0 {
+			c.OK(rule, fam+":signal:all-rows", sig.Pos(), "every successful return follows the complete loop over the satellites")
+		}
+	}
 	// guarded by Cells[i][j] and by c < numSignalCells
 	maskOK := false
 	for _, f := range dominatingFacts(ctor.Block()) {
@@ -842,6 +888,9 @@ func classifyMSMGuard(A *Aff, hl *headerLemma, fn *ssa.Function, buf *ssa.Parame
 	// equality test of the type value with a constant (not equal edge)
 	if (bo.Op == token.EQL && !ft.Val) || (bo.Op == token.NEQ && ft.Val) {
 		if k, isC := constInt(bo.Y); isC && k >= 1074 && k <= 1137 {
+			return "not-msm-type"
+		}
+		if k, isC := constInt(bo.X); isC && k >= 1074 && k <= 1137 {
 			return "not-msm-type"
 		}
 	}
